@@ -294,6 +294,7 @@ class Interp:
         self.nlife = Counter()
         self.ndirect = Counter()
         self.in_process = self.clear_in_reap = False
+        self.nested_frame = None
         self.flip, self.emitted_now = None, 0
         self.top_op, self.top_start = None, 0
         self.probe_snap = {}
@@ -374,9 +375,87 @@ class Interp:
                             self.reap_now(op)
                         elif op[0] == 'clear_all':
                             self.clear_from_reaping()
+                        elif op[0] == 'process_now':
+                            self.frame_from_reaping(op)
                 finally:
                     self.in_life -= 1
                     self.depth -= 1
+
+    def frame_from_reaping(self, op):
+        """From an on_remove callback of the deletion pass: a whole frame
+        is run (world.process()).  For everything awaiting deletion at that
+        instant - the rest of this pass and what callbacks have requested
+        since - this is "the next process()": it is reaped before any
+        processor of the nested frame runs."""
+        if (not self.enabled or getattr(self, 'clearing', False)
+                or not self.in_process or self.nested_frame is not None
+                or self.clear_in_reap):
+            return
+        dt2 = op[1]
+        exp2 = []
+        for eid in list(self.dead):
+            row = self.ents.pop(eid, None)
+            if row is None:
+                continue
+            for c, i in row.items():
+                exp2 += self.exp_life(i, 'on_remove', eid)
+                self.detach(i, eid)
+        self.dead.clear()
+        self.stale.clear()
+        self.nested_frame = {'exp2': exp2, 'dt': dt2,
+                             'cur': repr(getattr(self, 'cur_cb_eid', None)),
+                             'procs': [j for q, j in self.procs]}
+        self.no_scripts = True
+        self.trace.add('frame_from_reaping', repr(dt2))
+        self.probes['frame_run_by_on_remove_of_the_deletion_pass'] += 1
+        self.faults['nested_frame_during_reaping'] += 1
+        saved, self.cur_dt = self.cur_dt, dt2
+        try:
+            self.w.process(dt2)
+        finally:
+            self.cur_dt = saved
+
+    def judge_nested_frame(self, start, exp, expected_procs, dt):
+        nf, self.nested_frame = self.nested_frame, None
+        entries = [e for d, e in self.log[start:]]
+        life = [e for e in entries if e[0] == 'life']
+        want = Counter(exp + nf['exp2'])
+        if Counter(life) != want:
+            missing = sorted((want - Counter(life)).elements())
+            extra = sorted((Counter(life) - want).elements())
+            self.fail(('C05', 'C02'), 'callback_missing' if missing
+                      else 'callback_extra', f'process({dt}) with a frame '
+                      f'run by a removal callback: missing {missing}, '
+                      f'unexpected {extra}')
+        # every entity awaiting deletion is notified before any processor
+        # of the nested frame; the one the outer pass was in the middle of
+        # (detached already, its other components not notified yet) before
+        # any processor of the outer frame
+        nproc = 0
+        for e in entries:
+            if e[0] == 'proc':
+                nproc += 1
+            elif e[0] == 'life' and nproc and (
+                    e[3] != nf['cur'] or nproc > len(nf['procs'])):
+                self.fail('C05', 'reaped_late', f'process({dt}) with a frame '
+                          f'run by a removal callback: {e[1]} of entity '
+                          f'{e[3]} was notified after {nproc} processor '
+                          f'call(s): '
+                          f'{[x[:4] for x in entries if x[0] in ("life", "proc")]}')
+        got = [e for e in entries if e[0] == 'proc']
+        w1 = [('proc', f'p{j}', repr(nf['dt']), True) for j in nf['procs']]
+        w2 = [('proc', f'p{j}', repr(dt), True) for j in expected_procs]
+        if getattr(self, 'order_unsure', False):
+            ok = (sorted(got[:len(w1)]) == sorted(w1)
+                  and sorted(got[len(w1):]) == sorted(w2))
+        else:
+            ok = got == w1 + w2
+        if not ok:
+            self.fail('C07', 'call_count', f'process({dt}) with a nested '
+                      f'process({nf["dt"]}): processors called {got}, '
+                      f'expected {w1 + w2}')
+        self.stats['sim_time'] += dt
+        self.frames = getattr(self, 'frames', 0) + 1
 
     def clear_from_reaping(self):
         """From an on_remove callback of the deletion pass: the whole world
@@ -1185,6 +1264,7 @@ class Interp:
     def do_process(self, op, start, dt):
         self.cur_dt = dt
         self.clear_in_reap = False
+        self.nested_frame = None
         pre = sorted(self.where.items(), key=repr)
         pre_procs = [j for q, j in self.procs]
         groups = []
@@ -1245,9 +1325,15 @@ class Interp:
         finally:
             self.life_ok = False
             self.in_process = False
+            self.no_scripts = False
         if self.clear_in_reap:
             self.clear_in_reap = False
+            self.nested_frame = None
             return self.judge_cleared_frame(start, pre, pre_procs, dt)
+        if self.nested_frame is not None and boom is None:
+            return self.judge_nested_frame(start, exp if self.enabled
+                                           else [], expected_procs, dt)
+        self.nested_frame = None
         actual = [e for d, e in self.log[start:] if d == self.depth]
         # lifecycle group first, then processors in model order
         nlife = sum(len(g[0]) for g in groups)
@@ -2220,6 +2306,14 @@ def generate(prop, run_seed, tier='quick', tolerate=frozenset()):
                      ['reap_now', rng.choice(cfg['ids']),
                       rng.choice(['delete', 'strip'])])
                     for _ in range(rng.randint(1, 2))]
+    if crng.random() < {'C05': .08, 'C07': .02}.get(prop, 0):
+        # ... or runs a whole frame itself
+        hs = [i for i, c in enumerate(cfg['insts'])]
+        for i in rng.sample(hs, min(len(hs), rng.randint(1, 3))):
+            body = [['process_now', rng.choice(DTS)]]
+            if rng.random() < .6:
+                body.insert(0, ['delete', rng.choice(cfg['ids'])])
+            scripts[f'rm:c{i}:{rng.choice([0, 0, 1])}'] = body
     if crng.random() < {'C05': .06, 'C01': .04, 'C02': .04}.get(prop, 0):
         # ... or clears the whole world
         hs = [i for i, c in enumerate(cfg['insts'])]
